@@ -29,18 +29,19 @@ def terminal_all_impl(impl, names=None):
     return L
 
 
-def run_model(init, history, seed, inject=None, dtype=np.complex128):
+def run_model(init, history, seed, inject=None, dtype=np.complex128, detach=None):
     m = Model(init, dtype, inject=inject, seed=seed)
+    m.detach = detach
     for st in history:
         m.apply(tuple(st))
     return m
 
 
-def expected_grads(init, history, seed, terminal=terminal_all_model, upto=None):
+def expected_grads(init, history, seed, terminal=terminal_all_model, upto=None, detach=None):
     """-> (model, {name: expected grad}) for every live slot.  `upto`: number of statements of the
     history that the recorded computation consists of (default all)."""
     h = history if upto is None else history[:upto]
-    m0 = run_model(init, h, seed)
+    m0 = run_model(init, h, seed, detach=detach)
     exp = {}
     G = {}
     for fam in sorted(set(m0.fam[n] for n in m0.order), key=str):
@@ -52,7 +53,7 @@ def expected_grads(init, history, seed, terminal=terminal_all_model, upto=None):
         tau = max(m0.version[fam], m0.created[owner])
         g = np.zeros(n_el)
         for k in range(n_el):
-            m = run_model(init, h, seed, inject=(owner, k, tau))
+            m = run_model(init, h, seed, inject=(owner, k, tau), detach=detach)
             g[k] = np.imag(terminal(m)) / H_STEP
         G[fam] = (owner, g)
     for n in m0.order:
